@@ -776,3 +776,128 @@ def denlike(eng, ref, d):
     """denotation of d read in the domain (boolean / spin) of the model `ref` (boolean for a plain dict)"""
     spin = isinstance(ref, PObj) and is_spin_class(eng, ref.cls)
     return SV(FO.fold(eng, eng.store_of(d), _g(eng, "sden" if spin else "bden")), "real")
+
+
+# ------------------------------------------------------------------ exhaustive enumeration (C09, vf/qvc/enumth.py)
+def _asgset(eng, V):
+    from . import enumth as EN
+    if isinstance(V, SV) and V.t == "asgset":
+        return V.e
+    raise Unsupported("set of enumerated tuples expected")
+
+
+def _tq(eng, hint="tq"):
+    from . import enumth as EN
+    eng.nfresh += 1
+    return z3.Const("%s!%d" % (hint, eng.nfresh), EN.Asg)
+
+
+def _value_at(eng, t, D):
+    from . import enumth as EN
+    ver = eng.store_of(D)
+    return EN.VALUE(t, ver.dom, ver.val)
+
+
+@spec
+def bf_product(eng, spin, n):
+    """the set of all tuples of itertools.product(domain, repeat=n)"""
+    from . import enumth as EN
+    t = _tq(eng)
+    return SV(z3.Lambda([t], EN.INS(t, _b(eng, spin), zint(n))), "asgset")
+
+
+@spec
+def bf_none_valid(eng, V):
+    from . import enumth as EN
+    V = _asgset(eng, V)
+    t = _tq(eng)
+    return SV(z3.ForAll([t], z3.Implies(z3.Select(V, t), z3.Not(EN.VALID(t)))), "bool")
+
+
+@spec
+def bf_is_min(eng, b, V, D):
+    """no valid tuple of V has a value below b"""
+    from . import enumth as EN
+    V = _asgset(eng, V)
+    t = _tq(eng)
+    return SV(z3.ForAll([t], z3.Implies(z3.And(z3.Select(V, t), EN.VALID(t)), _value_at(eng, t, D) >= zreal(b))), "bool")
+
+
+@spec
+def bf_attains(eng, x, b, V, D):
+    """x is the assignment of a valid tuple of V with value b"""
+    from . import enumth as EN
+    if not (isinstance(x, SV) and x.t == "asg"):
+        return False
+    V = _asgset(eng, V)
+    return SV(z3.And(z3.Select(V, x.e), EN.VALID(x.e), _value_at(eng, x.e, D) == zreal(b)), "bool")
+
+
+@spec
+def bf_nosol(eng, s):
+    """s is the empty assignment {}"""
+    if isinstance(s, DictVal):
+        return is_empty(eng, s)
+    if isinstance(s, dict):
+        return not s
+    return False
+
+
+@spec
+def bf_one_empty(eng, s):
+    """s is the list [{}]"""
+    return isinstance(s, ListVal) and len(s.items) == 1 and bf_nosol(eng, s.items[0])
+
+
+@spec
+def bf_nolist(eng, s):
+    """s is the empty list"""
+    return isinstance(s, ListVal) and not s.items
+
+
+@spec
+def bf_list_is(eng, L, b, V, D):
+    """the python list L holds, exactly once each, the assignments of the valid tuples of V whose value is b"""
+    from . import enumth as EN
+    if not (isinstance(L, SV) and L.t == "asglist"):
+        return False
+    V = _asgset(eng, V)
+    t = _tq(eng)
+    want = z3.If(z3.And(z3.Select(V, t), EN.VALID(t), _value_at(eng, t, D) == zreal(b)), z3.IntVal(1), z3.IntVal(0))
+    return SV(z3.ForAll([t], z3.Select(L.e, t) == want), "bool")
+
+
+@spec
+def bf_sols_ok(eng, groups, b, V, D):
+    """bookkeeping of all_solutions: no value recorded below the current best b, and the list recorded for b holds
+    exactly the valid visited tuples of value b, once each; nothing recorded while there is no best"""
+    from . import enumth as EN
+    if not isinstance(groups, EN.Groups):
+        raise Unsupported("solutions table expected")
+    eng.nfresh += 1
+    r = z3.Real("rq!%d" % eng.nfresh)
+    if b is None:
+        return SV(z3.ForAll([r], z3.Not(z3.Select(groups.has, r))), "bool")
+    bb = zreal(b)
+    Vv = _asgset(eng, V)
+    t = _tq(eng)
+    want = z3.If(z3.And(z3.Select(Vv, t), EN.VALID(t), _value_at(eng, t, D) == bb), z3.IntVal(1), z3.IntVal(0))
+    return SV(z3.And(z3.Select(groups.has, bb),
+                     z3.ForAll([r], z3.Implies(z3.Select(groups.has, r), r >= bb)),
+                     z3.ForAll([t], z3.Select(z3.Select(groups.cnt, bb), t) == want)), "bool")
+
+
+@spec
+def keylabels(eng, d):
+    """the set of labels that occur in the keys of the dict"""
+    return SV(FO.keylabels_of(eng, eng.store_of(d)), "lset")
+
+
+@spec
+def bf_n(eng, D):
+    """the number of variables the brute-force solver enumerates over: the variable counter of a labelled model,
+    otherwise the number of distinct labels in the keys"""
+    if isinstance(D, PObj) and "_reverse_mapping" in D.attrs:
+        return SV(zint(eng.get_attr_raw(D, "_num_binary_variables")), "int")
+    arr = FO.keylabels_of(eng, eng.store_of(D))
+    return SV(T.CARD(arr), "int")
